@@ -8,6 +8,7 @@
 import Miden.Lemmas.U64Tac
 import Miden.Lemmas.U64Pure
 import Miden.Lemmas.U64Mul
+import Miden.Lemmas.U64Div
 namespace Miden.C16
 open Miden
 
@@ -171,6 +172,47 @@ theorem u64_max_exact (vm : Vm) (bh bl ah al : Nat) (r : List Nat) (hs : vm.stac
 example : (stackRun Generated.u64_overflowing_mul
     { stack := [4294967295, 4294967295, 4294967295, 4294967295] ++ List.replicate 16 9 }).toOption
     = some ([4294967295, 4294967294, 0, 1] ++ List.replicate 16 9) := by decide
+
+
+/-! ### Division: exact for every advice tape (the hinted quotient and remainder are checked in-VM) -/
+
+/-- `div`: whatever the host supplies as hint (any field elements, any tape length), a completed run
+    has a non-zero divisor and leaves exactly `⌊a / b⌋`; the rest of the stack is untouched. -/
+theorem u64_div_exact_for_every_hint (vm : Vm) (bh bl ah al : Nat) (r out : List Nat)
+    (hs : vm.stack = bh :: bl :: ah :: al :: r)
+    (h3 : bh < two32) (h2 : bl < two32) (h1 : ah < two32) (h0 : al < two32) (hr : 16 ≤ r.length)
+    (h : stackRun Generated.u64_div vm = .ok out) :
+    u64of bh bl ≠ 0 ∧
+      out = (u64of ah al / u64of bh bl) / two32 :: (u64of ah al / u64of bh bl) % two32 :: r :=
+  U64Div.u64_div_sound vm bh bl ah al r out hs h3 h2 h1 h0 hr h
+
+/-- `mod`: a completed run leaves exactly `a mod b`, for every advice tape. -/
+theorem u64_mod_exact_for_every_hint (vm : Vm) (bh bl ah al : Nat) (r out : List Nat)
+    (hs : vm.stack = bh :: bl :: ah :: al :: r)
+    (h3 : bh < two32) (h2 : bl < two32) (h1 : ah < two32) (h0 : al < two32) (hr : 16 ≤ r.length)
+    (h : stackRun Generated.u64_mod vm = .ok out) :
+    u64of bh bl ≠ 0 ∧
+      out = (u64of ah al % u64of bh bl) / two32 :: (u64of ah al % u64of bh bl) % two32 :: r :=
+  U64Div.u64_mod_sound vm bh bl ah al r out hs h3 h2 h1 h0 hr h
+
+/-- `divmod`: a completed run leaves `[r_hi, r_lo, q_hi, q_lo]` with `q = ⌊a / b⌋`, `r = a mod b`,
+    for every advice tape. -/
+theorem u64_divmod_exact_for_every_hint (vm : Vm) (bh bl ah al : Nat) (r out : List Nat)
+    (hs : vm.stack = bh :: bl :: ah :: al :: r)
+    (h3 : bh < two32) (h2 : bl < two32) (h1 : ah < two32) (h0 : al < two32) (hr : 16 ≤ r.length)
+    (h : stackRun Generated.u64_divmod vm = .ok out) :
+    u64of bh bl ≠ 0 ∧
+      out = (u64of ah al % u64of bh bl) / two32 :: (u64of ah al % u64of bh bl) % two32 ::
+        (u64of ah al / u64of bh bl) / two32 :: (u64of ah al / u64of bh bl) % two32 :: r :=
+  U64Div.u64_divmod_sound vm bh bl ah al r out hs h3 h2 h1 h0 hr h
+
+-- the honest hint is accepted (the hypothesis of the three theorems is satisfiable)
+example : (stackRun Generated.u64_divmod
+    { stack := [0, 7, 0, 100] ++ List.replicate 16 9, adv := [14, 0, 2, 0] }).toOption
+    = some ([0, 2, 0, 14] ++ List.replicate 16 9) := by decide
+-- and a forged one is refused
+example : (stackRun Generated.u64_divmod
+    { stack := [0, 7, 0, 100] ++ List.replicate 16 9, adv := [13, 0, 9, 0] }).toOption = none := by decide
 
 -- Non-vacuity: the hypotheses are met by a concrete state and the procedure really runs.
 example : (stackRun Generated.u64_overflowing_add
